@@ -12,21 +12,28 @@ Two versions of the code are modelled, selected by `Cfg`:
 * `Cfg.fixed`  — the repaired code (the `fix:` commits): chunked `readN`, capacity `min(ln, maxPrealloc)`, nil pointer
                  fields are allocated. The driver runs `Cfg.fixed`; it must agree with the current source.
 
-Partial operations of the Go code and where they are in the model (`tl_decode_total` has to prove the live ones safe):
-* `binary.LittleEndian.Uint32(b)` / `Uint64(b)` (index `b[3]` / `b[7]`)  — `u32le` / `u64le`, panic on a short slice; the
-  proof needs that `io.ReadFull` fills the buffer or fails (`readFull_ok_len`);
-* `chunk[:k]` in `readN`                                                  — `sliceTo maxPrealloc k`, panic for `k < 0` or
-  `k > 4096`; the proof needs the loop condition `len(data) < n` and the `min`;
-* `val.Elem().Type()` on a nil pointer field                              — `crash` under `Cfg.nilPtrPanics` (code as found);
-* `sizeBuf[:3]`, `b[0]` of a `[1]byte`, `b[:]` of a `[4]byte`, `t[3]..t[0]` after `len(t) != 4` — constant bounds, total;
-* `make([]byte, n)`: `n` is a byte or at most `maxPrealloc` (64-bit `int`: `int(uint32)` is not negative) — total, COUNTED;
-* `reflect.New(..).Interface().(UnmarshalerTL)`                           — comma-ok assertion, total;
-* reflect panics that depend on the Go TYPE only and not on the input (`FieldByName("SumType").SetString` on a field
-  that is not a string, `Set` on an unexported field is guarded by `CanSet`) are NOT in the model: `Ty` is the shape the
-  decoder sees, not the Go type. Every alternative of every shipped sum type is decoded at least once on the Go side
-  from an accepted encoding (the `valid` lines of `tld.dec`; conditional fields with random mode bits), which is the test
-  for an input-independent panic.
-* `decodeLength` / `processQueryAnswer` (liteclient/client.go): slice expressions with explicit bounds panics (below). -/
+Partial operations of the Go code (line numbers: tl/decoder.go at 730d89f) and where they are in the model. A site is
+modelled as partial only if the Go expression can panic once the code that guards it is changed:
+* `chunk[:k]` in `readN` (:153, :157)          — `sliceTo maxPrealloc k` with `k : Int`, panic for `k < 0` or `k > 4096`;
+  guard: the loop condition `len(data) < n` (:148) and the clamp `if k > len(chunk)` (:150);
+* `reflect.MakeSlice(val.Type(), 0, capacity)` (:275) — `makeSliceCap cap` with `cap : Int`, panic for `cap < 0`
+  ("reflect.MakeSlice: negative cap"); guard: the count is kept unsigned (:269-273). LIVE in the code before 730d89f
+  where `int` has 32 bits (`Cfg.int32`, theorem `tl_decode_int32_count_panics`, replayed with GOARCH=386);
+* `val.Elem()` then `val.Type()` on a nil pointer field (:30-32) — `crash` under `Cfg.nilPtrPanics` (code as found);
+NOT partial in Go, hence total in the model:
+* `binary.LittleEndian.Uint32(b)` / `Uint64(b)` (:52, :65, :76, :181, :269 and every tag read of generated.go): `b` is
+  `make([]byte, 4)`, `make([]byte, 8)`, a `[4]byte` — a buffer of constant length whatever `io.ReadFull` returned; with
+  the error check removed the value is garbage, not a panic. (Round 4 modelled these as partial; that was artificial
+  and is withdrawn.)
+* `sizeBuf[:3]` (:177), `b[0]` of a `[1]byte` (:124), `t[3]..t[0]` after `len(t) != 4` (:253-256): constant bounds;
+* `make([]byte, n)` (:139): `n` is a byte or a 3-byte value, at most 2^24-1 in any `int`; COUNTED;
+* `reflect.New(..).Interface().(UnmarshalerTL)` (:34): comma-ok assertion;
+OUTSIDE the model:
+* reflect panics that depend on the Go TYPE only and not on the input (`FieldByName("SumType").SetString` (:228) on a
+  field that is not a string; `Set` on an unexported field is guarded by `CanSet`): `Ty` is the shape the decoder sees,
+  not the Go type. Every alternative of every shipped sum type is decoded at least once on the Go side from an accepted
+  encoding (the `valid` lines of `tld.dec`; conditional fields with random mode bits).
+`decodeLength` / `processQueryAnswer` (liteclient/client.go): slice expressions with explicit bounds panics (below). -/
 namespace Tongo.TlD
 
 structure Cfg where
@@ -36,10 +43,15 @@ structure Cfg where
   trustCount : Bool
   /-- decode of a nil pointer field: `val.Elem()` is the zero Value, `val.Type()` panics -/
   nilPtrPanics : Bool
+  /-- decodeVector: `ln := int(binary.LittleEndian.Uint32(b))` where `int` has 32 bits (GOARCH=386/arm): a count of
+  2^31 or more is negative. The repaired code keeps the count unsigned. -/
+  countInt32 : Bool
   deriving Repr, DecidableEq
 
-def Cfg.orig : Cfg := ⟨true, true, true⟩
-def Cfg.fixed : Cfg := ⟨false, false, false⟩
+def Cfg.orig : Cfg := ⟨true, true, true, false⟩
+def Cfg.fixed : Cfg := ⟨false, false, false, false⟩
+/-- the code after the round-1 repairs and before 730d89f, where `int` has 32 bits -/
+def Cfg.int32 : Cfg := ⟨false, false, false, true⟩
 
 /-- `maxPrealloc` of tl/decoder.go (repaired code): the most that is allocated on the strength of a length prefix alone -/
 def maxPrealloc : Nat := 4096
@@ -84,19 +96,26 @@ def le : List UInt8 → Nat
   | [] => 0
   | b :: bs => b.toNat + 256 * le bs
 
-/-- `binary.LittleEndian.Uint32(b)` on a SLICE `b`: the compiler's bounds check `_ = b[3]` panics on a short slice -/
-def u32le (b : List UInt8) : Outcome Nat :=
-  if b.length < 4 then .panic "index out of range [3]" else .ok (le (b.take 4))
+/-- `b := make([]byte, 4); io.ReadFull(buf, b); binary.LittleEndian.Uint32(b)` and the same on a `[4]byte`: the buffer
+has constant length, `Uint32` is total -/
+def read32 {β} (f : Nat → M β) : M β := bind (readFull 4) fun b => f (le b)
+/-- the same with 8 bytes -/
+def read64 {β} (f : Nat → M β) : M β := bind (readFull 8) fun b => f (le b)
+/-- `sizeBuf := make([]byte, 4); io.ReadFull(r, sizeBuf[:3]); binary.LittleEndian.Uint32(sizeBuf)` -/
+def read24 {β} (f : Nat → M β) : M β := bind (readFull 3) fun b => f (le b)
 
-/-- `binary.LittleEndian.Uint64(b)` -/
-def u64le (b : List UInt8) : Outcome Nat :=
-  if b.length < 8 then .panic "index out of range [7]" else .ok (le (b.take 8))
-
-@[inline] def liftO {α} (o : Outcome α) : M α := fun s => (o, s)
-
-/-- `buf[:k]` for a Go int `k` on a buffer of length `len`: out of range panics -/
+/-- `buf[:k]` for a Go int `k` on a buffer of length `len` (tl/decoder.go:153 `chunk[:k]`): out of range panics -/
 def sliceTo (len : Nat) (k : Int) : M Unit := fun s =>
   if k < 0 ∨ (len : Int) < k then (.panic "slice bounds out of range", s) else (.ok (), s)
+
+/-- `reflect.MakeSlice(typ, 0, cap)` (tl/decoder.go:275) for elements of `sz` bytes: a negative capacity panics -/
+def makeSliceCap (cap : Int) (sz : Nat) : M Unit := fun s =>
+  if cap < 0 then (.panic "reflect.MakeSlice: negative cap", s)
+  else (.ok (), { s with alloc := s.alloc + cap.toNat * sz })
+
+/-- the count of decodeVector as the loop and `MakeSlice` see it: `int(uint32)` wraps where `int` has 32 bits -/
+def Cfg.count (cfg : Cfg) (v : Nat) : Int :=
+  if cfg.countInt32 ∧ 2 ^ 31 ≤ v then (v : Int) - 2 ^ 32 else (v : Int)
 
 /-- the padding loop of readByteSlice: `k` single-byte reads -/
 def padLoop : Nat → M Unit
@@ -132,7 +151,7 @@ def readByteSlice (cfg : Cfg) : M Nat :=
     bind (padLoop ((4 - (1 + first) % 4) % 4)) fun _ => ret first
   else if first = 254 then
     -- sizeBuf := make([]byte, 4); io.ReadFull(r, sizeBuf[:3]); binary.LittleEndian.Uint32(sizeBuf)
-    bind (readFull 3) fun sb => bind (liftO (u32le (sb ++ [0]))) fun n =>
+    read24 fun n =>
     bind (if cfg.allocBeforeRead then allocRead n else readN n) fun _ =>
     bind (padLoop ((4 - (4 + n) % 4) % 4)) fun _ => ret n
   else fail "invalid bytes prefix"
@@ -183,19 +202,20 @@ end
 mutual
 /-- `tl.decode` / generated `UnmarshalTL`; the result is the numeric value of an integer (0 otherwise), used for modes -/
 def decode (cfg : Cfg) : Ty → M Nat
-  | .int4 => bind tick fun _ => bind (readFull 4) fun b => bind (liftO (u32le b)) fun v => ret v
-  | .int8 => bind tick fun _ => bind (readFull 8) fun b => bind (liftO (u64le b)) fun v => ret v
-  | .bool => bind tick fun _ => bind (readFull 4) fun b => bind (liftO (u32le b)) fun v =>
+  | .int4 => bind tick fun _ => read32 fun v => ret v
+  | .int8 => bind tick fun _ => read64 fun v => ret v
+  | .bool => bind tick fun _ => read32 fun v =>
       if v = 0x997275b5 then ret 1 else if v = 0xbc799737 then ret 0 else fail "invalid Bool tag"
   | .bytes => bind tick fun _ => bind (readByteSlice cfg) fun _ => ret 0
   | .arr n => bind tick fun _ => bind (readByteSlice cfg) fun l =>
       if l = n then ret 0 else fail "mismatched length of decoded byte slice and array"
   | .int256 => bind tick fun _ => bind (readFull 32) fun _ => ret 0
-  | .vec sz e => bind tick fun _ => bind (readFull 4) fun b => bind (liftO (u32le b)) fun ln =>
-      bind (allocN ((if cfg.trustCount then ln else min ln maxPreallocItems) * sz)) fun _ =>
-      vecLoop (decode cfg e) sz ln
+  | .vec sz e => bind tick fun _ => read32 fun v =>
+      -- `for i := 0; i < ln; i++` does not run for a negative `ln`
+      bind (makeSliceCap (if cfg.trustCount then cfg.count v else min (cfg.count v) (maxPreallocItems : Int)) sz) fun _ =>
+      vecLoop (decode cfg e) sz (cfg.count v).toNat
   | .struct fs => bind tick fun _ => decodeFields cfg fs 0
-  | .sum alts => bind tick fun _ => bind (readFull 4) fun b => bind (liftO (u32le b)) fun tag => decodeAlts cfg alts tag
+  | .sum alts => bind tick fun _ => read32 fun tag => decodeAlts cfg alts tag
   | .ptr e => if cfg.nilPtrPanics then crash "reflect: call of reflect.Value.Type on zero Value"
       else bind tick fun _ => decode cfg e
   | .bad => bind tick fun _ => fail "type not implemented"
